@@ -1,6 +1,5 @@
 from __future__ import annotations
 
-from collections import defaultdict
 from copy import deepcopy
 from types import MappingProxyType
 from typing import TYPE_CHECKING
@@ -58,9 +57,11 @@ class MolGraph:
             self._neighbors = deepcopy(mol_graph._neighbors)
             self._bond_attrs = deepcopy(mol_graph._bond_attrs)
         else:
-            self._atom_attrs = defaultdict(dict)
-            self._neighbors = defaultdict(set)
-            self._bond_attrs = defaultdict(dict)
+            # plain dicts: look-ups about absent atoms or bonds must raise
+            # instead of silently inserting. Every atom owns a neighbor set.
+            self._atom_attrs = {}
+            self._neighbors = {}
+            self._bond_attrs = {}
 
     @property
     def atoms(
@@ -174,6 +175,7 @@ class MolGraph:
         atom_type = PERIODIC_TABLE[atom_type]
 
         self._atom_attrs[atom] = {"atom_type": atom_type, **attr}
+        self._neighbors.setdefault(atom, set())
 
     def remove_atom(self, atom: AtomId):
         """Removes atom from graph.
@@ -596,7 +598,7 @@ class MolGraph:
             new_graph._bond_attrs.update(mol_graph._bond_attrs)
 
             for atom, neighbors in mol_graph._neighbors.items():
-                new_graph._neighbors[atom].update(neighbors)
+                new_graph._neighbors.setdefault(atom, set()).update(neighbors)
 
         return new_graph
 
